@@ -1,5 +1,6 @@
 import PsV.Driver.Common
 import PsV.Driver.C04
+import PsV.Driver.C18
 import PsV.Driver.Eval
 open PsV.Driver
 
@@ -8,6 +9,7 @@ def stateless (f : List String → String) : IO Unit := do
 
 def drivers : List (String × IO Unit) :=
   [("C04", stateless C04.handle),
+   ("C18", C18.run),
    ("EV", Eval.run)]
 
 def main (args : List String) : IO UInt32 := do
